@@ -2,11 +2,16 @@
    several columns, ADDED and EXISTING entries) type-faithfully, hence pruning on the DataFiles read
    back from a manifest is pruning on the bounds the writer computed, hence sound (C13). *)
 From Coq Require Import ZArith List Bool String.
-Require Import DS.Model.Value DS.Model.BoundPrim DS.Gen.GenBound DS.Model.Bound DS.Model.ManifestPrim
+Require Import DS.Model.Value DS.Model.BoundPrim DS.Gen.GenBound DS.Model.Bound DS.Model.FieldKey DS.Model.ManifestPrim
                DS.Gen.GenManifest13 DS.Gen.GenPrune DS.Model.Prune DS.Model.Manifest13
-               DS.Proofs.BoundProofs DS.Proofs.PruneProofs.
+               DS.Proofs.BoundProofs DS.Proofs.PruneProofs DS.Proofs.FieldKeyProofs.
 Import ListNotations.
 Open Scope Z_scope.
+
+(* ---- the key of a bound: int(str(k)) = k on int field ids (Proofs/FieldKeyProofs.v: the decimal rendering and Python's int()
+   parser are inverse) ---- *)
+Lemma py_int_of_str_of_id k : py_int_of_key (py_str_of_id k) = k.
+Proof. unfold py_int_of_key, py_str_of_id. rewrite kdec_str_of_Z. reflexivity. Qed.
 
 (* ---- one bound map ---- *)
 Lemma map_roundtrip (l : bmap) :
@@ -15,7 +20,7 @@ Lemma map_roundtrip (l : bmap) :
       (map (fun kv : Z * value => (py_str_of_id (fst kv), enc (snd kv))) l) = l.
 Proof.
   induction l as [|[k v] l IH]; intro B; [reflexivity|].
-  cbn [map fst snd py_str_of_id py_int_of_key].
+  cbn [map fst snd]. rewrite py_int_of_str_of_id.
   rewrite (bound_roundtrip v (B k v (or_introl eq_refl))).
   f_equal. apply IH. intros k' v' I. apply (B k' v'). right; exact I.
 Qed.
